@@ -45,6 +45,11 @@ impl RegistrationToken {
     pub(crate) fn new(inner: TokenInner) -> Self {
         Self { inner }
     }
+
+    #[cfg(feature = "verif")]
+    pub(crate) fn verif_key(&self) -> usize {
+        self.inner.into()
+    }
 }
 
 pub(crate) struct LoopInner<'l, Data> {
@@ -323,6 +328,38 @@ impl<'l, Data> LoopHandle<'l, Data> {
     pub fn downgrade(&self) -> WeakLoopHandle<'l, Data> {
         WeakLoopHandle {
             inner: Rc::downgrade(&self.inner),
+        }
+    }
+
+    /// Read-only snapshot of the loop bookkeeping (verification builds only).
+    #[cfg(feature = "verif")]
+    #[doc(hidden)]
+    pub fn verif_stats(&self) -> crate::verif::Stats {
+        crate::verif::Stats {
+            slots: self
+                .inner
+                .sources
+                .borrow()
+                .verif_slots()
+                .map(|entry| {
+                    (
+                        entry.token.into(),
+                        entry.source.is_some(),
+                        entry.source.as_ref().map(Rc::strong_count).unwrap_or(0),
+                    )
+                })
+                .collect(),
+            lifecycle: self
+                .inner
+                .sources_with_additional_lifecycle_events
+                .borrow()
+                .values
+                .iter()
+                .map(|token| token.verif_key())
+                .collect(),
+            timers: self.inner.poll.borrow().timers.borrow().verif_entries(),
+            idles: self.inner.idles.borrow().len(),
+            pending_action: self.inner.pending_action.get(),
         }
     }
 }
@@ -665,9 +702,13 @@ impl<'l, Data> EventLoop<'l, Data> {
     {
         let timeout = timeout.into();
         self.signals.stop.store(false, Ordering::Release);
+        #[cfg(feature = "verif")]
+        crate::verif::point("run.begin");
         while !self.signals.stop.load(Ordering::Acquire) {
             self.dispatch(timeout, data)?;
             cb(data);
+            #[cfg(feature = "verif")]
+            crate::verif::point("run.iter_end");
         }
         Ok(())
     }
@@ -693,14 +734,22 @@ impl<'l, Data> EventLoop<'l, Data> {
 
         impl Wake for EventLoopWaker {
             fn wake(self: Arc<Self>) {
+                #[cfg(feature = "verif")]
+                crate::verif::point("waker.store");
                 // Set the waker.
                 self.0.signal.future_ready.store(true, Ordering::Release);
+                #[cfg(feature = "verif")]
+                crate::verif::point("waker.notify");
                 self.0.notifier.notify().ok();
             }
 
             fn wake_by_ref(self: &Arc<Self>) {
+                #[cfg(feature = "verif")]
+                crate::verif::point("waker.store");
                 // Set the waker.
                 self.0.signal.future_ready.store(true, Ordering::Release);
+                #[cfg(feature = "verif")]
+                crate::verif::point("waker.notify");
                 self.0.notifier.notify().ok();
             }
         }
@@ -721,8 +770,12 @@ impl<'l, Data> EventLoop<'l, Data> {
 
         self.signals.stop.store(false, Ordering::Release);
         self.signals.future_ready.store(true, Ordering::Release);
+        #[cfg(feature = "verif")]
+        crate::verif::point("block_on.begin");
 
         while !self.signals.stop.load(Ordering::Acquire) {
+            #[cfg(feature = "verif")]
+            crate::verif::point("block_on.before_swap");
             // If the future is ready to be polled, poll it.
             if self.signals.future_ready.swap(false, Ordering::AcqRel) {
                 // Poll the future and break the loop if it's ready.
@@ -736,6 +789,8 @@ impl<'l, Data> EventLoop<'l, Data> {
             self.dispatch_events(None, data)?;
             self.dispatch_idles(data);
             cb(data);
+            #[cfg(feature = "verif")]
+            crate::verif::point("block_on.iter_end");
         }
 
         Ok(output)
@@ -836,6 +891,8 @@ impl LoopSignal {
     ///
     /// This is only useful if you are using the `EventLoop::run()` method.
     pub fn stop(&self) {
+        #[cfg(feature = "verif")]
+        crate::verif::point("signal.stop");
         self.signal.stop.store(true, Ordering::Release);
     }
 
@@ -846,6 +903,8 @@ impl LoopSignal {
     /// ensures the event loop will terminate quickly if you specified a long
     /// timeout (or no timeout at all) to the `dispatch` or `run` method.
     pub fn wakeup(&self) {
+        #[cfg(feature = "verif")]
+        crate::verif::point("signal.wakeup");
         self.notifier.notify().ok();
     }
 }
